@@ -7,7 +7,7 @@ From Coq Require Import List NArith Bool.
 From Wbxml Require Import Model.Codec Model.TablesDefs Gen.TablesData Model.Parser Model.Spec Model.TreeBuild Model.TreeConv
      Proofs.ParserDepth Proofs.ParserProofsDoc Proofs.ParserProofsTyped Proofs.ParserProofsWv
      Proofs.TreeBuildProofs Proofs.TreeBuildProofs2 Proofs.TreeBuildProofs3 Proofs.TreeBuildEmbed Proofs.TreeRoundTrip
-     Proofs.TreeRoundTripWide.
+     Proofs.TreeRoundTripWide Proofs.ConvRoundTrip Proofs.ConvWideUnforced.
 From Wbxml Require Model.EncXml Model.XmlRead Proofs.EncXmlProofs Proofs.EncXmlIndent.
 From Wbxml Require Model.EncWbxml Model.TreeNorm Proofs.EncWbxmlProofs Proofs.EncWbxmlSerialize Proofs.EncWbxmlDenote.
 From Wbxml Require Model.EncWbxmlEvents Proofs.EncWbxmlAbs Proofs.EncWbxmlDenote2 Proofs.EncWbxmlTblOk Proofs.EncWbxmlDenote3.
@@ -200,6 +200,27 @@ Theorem C03b_roundtrip_wide_partial : forall tblb TBL L o tag attrs ch bs,
                                          (TreeNorm.norm (EncWbxml.o_keep_ws o) [EncWbxml.NElt tag attrs ch])))).
 Proof. exact roundtrip_wide. Qed.
 Print Assumptions C03b_roundtrip_wide_partial.
+
+(* ... the language forced or found by the public identifier the encoder wrote (lang_choiceW: numeric id, or the textual id in
+   the string table compared without regard to case): the abstract document of C06's wide theorem is kept in view
+   (Proofs/ConvWideUnforced.v). *)
+Theorem C03b_roundtrip_wide_unforced_partial : forall tblb TBL L o tag attrs ch bs forced,
+  let e := EncWbxml.enc_env (EncWbxmlDenote2.to_blang L) o in
+  EncWbxmlAbs.plain_env e = true -> EncWbxmlDenote2.vals_ok L = true -> l_exts L = None ->
+  EncWbxmlTblOk.tree_ok3 L 0 (EncWbxml.NElt tag attrs ch) = true ->
+  find (fun x => l_id x =? l_id L) TBL = Some L ->
+  lang_choiceW TBL L e forced ->
+  EncWbxml.o_version o < 4 -> EncWbxml.header_public_id e < 4294967296 -> EncWbxml.header_public_id e <> 0 ->
+  (match EncWbxmlAbs.header_pid e with Some p => EncWbxmlDenote2.okb p = true | None => True end) ->
+  EncWbxml.len bs < 4294967296 ->
+  EncWbxml.enc_wbxml tblb (EncWbxmlDenote2.to_blang L) o [EncWbxml.NElt tag attrs ch] = EncWbxml.EOk bs ->
+  no_data (EncWbxmlDenote3.doc_events3 L e (EncWbxml.o_keep_ws o) (EncWbxml.NElt tag attrs ch)) = true ->
+  forall ef, tree_from_wbxml TBL forced 0 ef bs
+             = BOk (mk_wtree (l_id L) 106
+                     (hd_error (flat_map (tnw (EncWbxml.has_attr_table e))
+                                         (TreeNorm.norm (EncWbxml.o_keep_ws o) [EncWbxml.NElt tag attrs ch])))).
+Proof. exact roundtrip_wide_choice. Qed.
+Print Assumptions C03b_roundtrip_wide_unforced_partial.
 
 Theorem C03b_wide_tree_on_narrow_fragment : forall wa n, EncWbxmlSerialize.frag_node n = true -> tnw wa n = tn n.
 Proof. exact tnw_tn. Qed.
